@@ -29,53 +29,70 @@
    recurrence predicate infinitely often (C05_liveness; no assumption on the
    initial memory is needed, so it covers the admitted initial states
    _goal = 0, _hold = none; uses Classical_Prop.classic through
-   L4/LiveLemma.v).  The two blocking defects below therefore only ever end a
-   behaviour; they cannot make an infinite behaviour violate the condition.
+   L4/LiveLemma.v).  The blocking defect below therefore only ever ends a
+   behaviour; it cannot make an infinite behaviour violate the condition.
+   The steps that the repaired rho_1 adds at environment dead ends (see F3
+   below) are steps in which the environment breaks its action
+   (GenProofs/RabinClosure1.v ca_false_breaks_env): closure has nothing to
+   show for them and no behaviour of (e) contains one.
 
    REFUTED on the faithful model (and reproduced on the real code, DESIGN §7
-   F3, F12): "never reaches a state in which the synthesized action allows no
+   F12): "never reaches a state in which the synthesized action allows no
    step although the specification still obliges the component to move".
-   The two Examples below are concrete games, evaluated by vm_compute on the
-   model composed with the generated solver:
-     C05_refuted_dead_end   (F3)  strict causality, environment dead end,
-                                  initial memory _hold = none;
+   The Example below is a concrete game, evaluated by vm_compute on the model
+   composed with the generated solver:
      C05_refuted_stale_hold (F12) a stale persistence index after one step.
-   They are listed in /verif/KNOWN_FINDINGS.txt.
+   It is listed in KNOWN_FINDINGS.txt.
 
-   (f) BLOCKING ONLY IN THESE TWO CLASSES (C05_blocks_only_in_known_classes;
-   model composed with the generated solver, fuel >= number of valuations,
-   all four modes): at EVERY valuation of the winning region (reachable or
-   not) with the memory in range (_goal = j < number of goals, _hold = h <=
-   number of persistence sets), the synthesized action allows a step - for
-   every next environment value if Mealy, with one choice good for all next
-   environment values if Moore - unless the state is in
-     class F3 : h = none, strict causality (plus_one), and the state is an
-                environment dead end: cpre(FALSE) in the mode's quantifier
-                order (the component can make the environment's action false
-                while keeping its own), or
+   REPAIRED (finding F3, fixes/F3.patch): with strict causality (plus_one) and
+   _hold = none the construction allowed no step at a winning state inside
+   cpre(FALSE) (the environment cannot keep its action whatever the component
+   does), because rho_1 was accumulated with `basin = zk[0]; for z in zk[1:]`
+   - only for the levels >= 1 - while the rims of rho_2..rho_4 exclude
+   cpre(previous basin).  The repaired code starts rho_1 from the EMPTY basin
+   and runs over all of zk; the model (GenProofs/TransducerModel.v) follows
+   it, and C05_construction_is_translated ties it to the current code.
+     C05_dead_end_has_step: at EVERY winning environment dead end, whatever
+       the memory in range and in every mode, the synthesized action allows a
+       step (per the mode's quantifier order);
+     C05_repaired_dead_end_has_step: the concrete state of the former witness
+       now has a step (vm_compute);
+     C05_refuted_unrepaired_dead_end: the former witness, about the
+       UNREPAIRED construction (GenProofs/RabinUnrepaired.v, a copy of the
+       model with the old rho_1): admitted initial state, winning, in
+       cpre(FALSE), no step allowed.
+
+   (f) BLOCKING ONLY WHEN THE PERSISTENCE INDEX IS STALE
+   (C05_blocks_only_when_hold_is_stale; model composed with the generated
+   solver, fuel >= number of valuations, all four modes): at EVERY valuation
+   of the winning region (reachable or not) with the memory in range (_goal =
+   j < number of goals, _hold = h <= number of persistence sets), the
+   synthesized action allows a step - for every next environment value if
+   Mealy, with one choice good for all next environment values if Moore -
+   unless the state is in
      class F12: h = i < number of persistence sets and the state is outside
                 y_{k,i}, where k is the state's level (the first z_k that
                 contains it) - a stale persistence index.
-   These are the classes as tools/props/c05.py `classify` computes them on
-   the real implementation (there the dead end is read in the extended arena:
-   C05_dead_end_in_extended_arena shows it is the same set).  The proof
-   (GenProofs/RabinNB1-3.v) establishes, by invariants of the translated loops,
-   that z_k = z_{k-1} \/ (some y_{k,i}), that y_{k,i} <= cpre(y_{k,i}), that at
-   the exit of the Y loop every recorded attractor chain ends in y_{k,i}, and
-   that each chain element adds only states of cpre(previous element) or of
-   the goal; then rho_1 (cpre of the previous basin), rho_2 (h = none at a
-   rim), rho_4 (goal reached) or rho_3 (descent in the attractor) offers a
-   step.  At a dead end without strict causality the escape "\/ ~ env_action"
-   offers every step; at a dead end with strict causality and a persistence
-   index held, the steps that falsify the environment's action pass through
-   rho_4 (its controllable action has no rim outside the extra conjunct) -
-   which is why class F3 needs h = none.  The hypotheses on H and G (the
-   numbers of values of the two memory fields) hold for the declared fields
+   This is the class as tools/props/c05.py `classify` computes it on the real
+   implementation.  (Before the repair there was a second class, F3: h =
+   none, plus_one, state in cpre(FALSE); C05_blocks_only_in_known_classes is
+   the statement of that time, with the now superfluous hypothesis, kept
+   under its name.  C05_dead_end_in_extended_arena: the dead ends read in the
+   extended arena, as the closed-loop search reads them, are the same set.)
+   The proof (GenProofs/RabinNB1-3.v) establishes, by invariants of the
+   translated loops, that z_k = z_{k-1} \/ (some y_{k,i}), that y_{k,i} <=
+   cpre(y_{k,i}), that at the exit of the Y loop every recorded attractor
+   chain ends in y_{k,i}, and that each chain element adds only states of
+   cpre(previous element) or of the goal; then rho_1 (the state is in
+   cpre(previous basin), at level 0 in cpre(FALSE): whatever the memory),
+   rho_2 (h = none at a rim), rho_4 (goal reached) or rho_3 (descent in the
+   attractor) offers a step.  The hypotheses on H and G (the numbers of values
+   of the two memory fields) hold for the declared fields
    (C05_memory_fields_fit).
 
-   The check reports any blocking state outside the two classes, and any
-   failure of (a), memory ranges, or liveness found by the closed-loop
-   search, as a violation. *)
+   The check reports any blocking state outside class F12, and any failure
+   of (a), memory ranges, or liveness found by the closed-loop search, as a
+   violation. *)
 From Coq Require Import List Bool Arith Lia.
 Import ListNotations.
 From Omega Require Import L4.Arena L4.Kleene L4.Tables.
@@ -87,7 +104,7 @@ From OmegaGP Require Import CounterWidth.
 From OmegaGP Require Import TransducerModel TransducerBridge StreettTProofs RabinTProofs
   RabinTProofs2 StreettNB2 StreettClosure1 RabinClosure2 RabinLive2.
 From Omega Require Import L4.GameSpec.
-From OmegaGP Require Import RabinIter1 RabinNB3.
+From OmegaGP Require Import RabinIter1 RabinNB3 RabinUnrepaired.
 Local Open Scope bool_scope.
 
 Theorem C05_construction_is_translated :
@@ -230,11 +247,11 @@ Proof.
   constructor; intros i; vm_compute; repeat split.
 Qed.
 
-(* (f) the synthesized action blocks only in the two known classes.
-   Valuations of the extended arena: [ev (H*G) c x yb m x' yb' m'] has base
-   component value yb (yb') and memory m (m'), a memory being
+(* (f) the synthesized action blocks only when the persistence index held is
+   stale.  Valuations of the extended arena: [ev (H*G) c x yb m x' yb' m'] has
+   base component value yb (yb') and memory m (m'), a memory being
    _hold * G + _goal; [fidx zk s] is the first index k with zk[k] s = true. *)
-Theorem C05_blocks_only_in_known_classes :
+Theorem C05_blocks_only_when_hold_is_stale :
   forall nc nx ny (E S : bdd) (holds goals : list bdd) (moore plus_one : bool) fuel H G
          c x yb h j,
   NV nc nx ny <= fuel ->
@@ -248,7 +265,42 @@ Theorem C05_blocks_only_in_known_classes :
   let s := sv c x yb in
   last zk bfalse s = true ->                           (* a winning valuation *)
   let k := fidx zk s in                                (* its level *)
-  (* not in class F3 *)
+  (* not in class F12 *)
+  ~ (h < length holds /\ nth h (nth k yki []) bfalse s = false) ->
+  let L := lift nc nx ny (H * G) in
+  let A := rabin_action nc nx ny H G (L E) (L S) (map L holds) (map L goals) moore plus_one
+             (map L zk) (map (map L) yki) (map (map (map (map L))) (snd sol)) in
+  exists h' j', h' < H /\ j' < G /\
+    if moore
+    then exists yb', yb' < ny /\
+           forall x', x' < nx -> A (ev (H * G) c x yb (h * G + j) x' yb' (h' * G + j')) = true
+    else forall x', x' < nx -> exists yb', yb' < ny /\
+           A (ev (H * G) c x yb (h * G + j) x' yb' (h' * G + j')) = true.
+Proof.
+  intros nc nx ny E S holds goals moore plus_one fuel H G c x yb h j
+         Hf Sh Sg HnG HnH Hc Hx Hyb Hj Hh sol zk yki s Hwin k N12 L A.
+  exact (rabin_impl_blocks_only_stale_hold nc nx ny E S holds goals moore plus_one H G fuel
+           Hf Sh Sg HnG HnH c x yb h j Hc Hx Hyb Hj Hh Hwin N12).
+Qed.
+
+(* the statement as it was before the repair of finding F3, with the
+   hypothesis "not in class F3" (h = none, plus_one, environment dead end),
+   which the theorem above shows to be superfluous; kept under its name *)
+Theorem C05_blocks_only_in_known_classes :
+  forall nc nx ny (E S : bdd) (holds goals : list bdd) (moore plus_one : bool) fuel H G
+         c x yb h j,
+  NV nc nx ny <= fuel ->
+  Forall spred holds -> Forall spred goals ->
+  length goals <= G -> length holds < H ->
+  c < nc -> x < nx -> yb < ny ->
+  j < length goals -> h <= length holds ->
+  let sol := Gr1Gen.solve_rabin_game nc nx ny E S holds goals moore plus_one fuel in
+  let zk := fst (fst sol) in
+  let yki := snd (fst sol) in
+  let s := sv c x yb in
+  last zk bfalse s = true ->
+  let k := fidx zk s in
+  (* not in (former) class F3 *)
   ~ (h = length holds /\ plus_one = true /\
      cpre_spec nx ny moore plus_one E S bfalse s = true) ->
   (* not in class F12 *)
@@ -264,13 +316,63 @@ Theorem C05_blocks_only_in_known_classes :
            A (ev (H * G) c x yb (h * G + j) x' yb' (h' * G + j')) = true.
 Proof.
   intros nc nx ny E S holds goals moore plus_one fuel H G c x yb h j
-         Hf Sh Sg HnG HnH Hc Hx Hyb Hj Hh sol zk yki s Hwin k N3 N12 L A.
-  exact (rabin_impl_blocks_only_known nc nx ny E S holds goals moore plus_one H G fuel
-           Hf Sh Sg HnG HnH c x yb h j Hc Hx Hyb Hj Hh Hwin N3 N12).
+         Hf Sh Sg HnG HnH Hc Hx Hyb Hj Hh sol zk yki s Hwin k _ N12 L A.
+  exact (C05_blocks_only_when_hold_is_stale nc nx ny E S holds goals moore plus_one fuel H G
+           c x yb h j Hf Sh Sg HnG HnH Hc Hx Hyb Hj Hh Hwin N12).
 Qed.
 
-(* the dead ends of class F3 may equally be read in the extended arena, as
-   the closed-loop search does (FALSE lifted is FALSE) *)
+(* the repair of finding F3: at a winning environment dead end - a state of
+   cpre(FALSE): the component can make the environment's action false while
+   keeping its own, per the mode's quantifier order - the synthesized action
+   allows a step, WHATEVER the memory in range (in particular _hold = none,
+   where the unrepaired construction blocked under plus_one) and in every
+   mode (plus_one or not, Mealy or Moore) *)
+Theorem C05_dead_end_has_step :
+  forall nc nx ny (E S : bdd) (holds goals : list bdd) (moore plus_one : bool) fuel H G
+         c x yb h j,
+  NV nc nx ny <= fuel ->
+  Forall spred holds -> Forall spred goals ->
+  length goals <= G -> length holds < H ->
+  c < nc -> x < nx -> yb < ny ->
+  j < length goals -> h <= length holds ->             (* any memory in range *)
+  let sol := Gr1Gen.solve_rabin_game nc nx ny E S holds goals moore plus_one fuel in
+  let zk := fst (fst sol) in
+  let yki := snd (fst sol) in
+  let s := sv c x yb in
+  last zk bfalse s = true ->                           (* a winning valuation ... *)
+  cpre_spec nx ny moore plus_one E S bfalse s = true -> (* ... that is an environment dead end *)
+  let L := lift nc nx ny (H * G) in
+  let A := rabin_action nc nx ny H G (L E) (L S) (map L holds) (map L goals) moore plus_one
+             (map L zk) (map (map L) yki) (map (map (map (map L))) (snd sol)) in
+  exists h' j', h' < H /\ j' < G /\
+    if moore
+    then exists yb', yb' < ny /\
+           forall x', x' < nx -> A (ev (H * G) c x yb (h * G + j) x' yb' (h' * G + j')) = true
+    else forall x', x' < nx -> exists yb', yb' < ny /\
+           A (ev (H * G) c x yb (h * G + j) x' yb' (h' * G + j')) = true.
+Proof.
+  intros nc nx ny E S holds goals moore plus_one fuel H G c x yb h j
+         Hf Sh Sg HnG HnH Hc Hx Hyb Hj Hh sol zk yki s Hwin Hdead L A.
+  exact (rabin_impl_dead_end_step nc nx ny E S holds goals moore plus_one H G fuel
+           Hf Sh Sg HnG HnH c x yb h j Hc Hx Hyb Hj Hh Hwin Hdead).
+Qed.
+
+(* the steps that leave a dead end break the environment's action: a
+   controllable action towards the EMPTY set (which is what the repaired rho_1
+   uses at level 0) contains no step in which the environment keeps its
+   action, so closure (d) and liveness (e) have nothing to show for them *)
+Theorem C05_dead_end_steps_break_env :
+  forall nc nx ny H G (E S : bdd) (moore plus_one : bool) e v,
+  inr nc nx (ny * (H * G)) v ->
+  Gr1Gen.controllable_action nc nx (ny * (H * G)) E S moore plus_one 0 bfalse e v = true ->
+  E v = false.
+Proof.
+  intros nc nx ny H G E S moore plus_one e v.
+  exact (RabinClosure1.ca_false_breaks_env nc nx ny H G E S moore plus_one e v).
+Qed.
+
+(* the dead ends may equally be read in the extended arena, as the
+   closed-loop search does (FALSE lifted is FALSE) *)
 Theorem C05_dead_end_in_extended_arena :
   forall nc nx ny M (E S : bdd) (moore plus_one : bool) v,
   0 < M ->
@@ -293,7 +395,6 @@ Example C05_blocks_only_example :
   length [R] <= 1 /\ length [P] < 2 /\
   last (fst (fst sol)) bfalse (sv 0 0 0) = true /\
   (forall h, h <= 1 ->
-     ~ (h = 1 /\ false = true /\ cpre_spec 1 2 false false E S bfalse (sv 0 0 0) = true) /\
      ~ (h < 1 /\ nth h (nth (fidx (fst (fst sol)) (sv 0 0 0)) (snd (fst sol)) []) bfalse
                    (sv 0 0 0) = false)).
 Proof.
@@ -302,12 +403,13 @@ Proof.
   split; [repeat constructor; intros v; reflexivity|].
   split; [cbn; lia|]. split; [cbn; lia|].
   split; [vm_compute; reflexivity|].
-  intros h Hh. split.
-  - intros [_ [Hf _]]. discriminate Hf.
-  - intros [Hlt Hn]. assert (h = 0) by lia. subst h. vm_compute in Hn. discriminate Hn.
+  intros h Hh [Hlt Hn]. assert (h = 0) by lia. subst h. vm_compute in Hn. discriminate Hn.
 Qed.
 
-Section Refuted_dead_end.
+(* the game of the former witness of finding F3 (x, y Boolean, plus_one,
+   Mealy); base state x = 1, y = 0 (extended component value 6 = y 0, memory
+   _hold = none (1), _goal = 0) *)
+Section Dead_end.
 Let E := of_table2 1 2 2 [(bitsN 4 15%N);
   (bitsN 4 12%N);
   (bitsN 4 15%N);
@@ -323,28 +425,50 @@ Let sol := Gr1Gen.solve_rabin_game 1 2 2 E S P R false true 18.
 Let act := rabin_action 1 2 2 2 2 (L E) (L S) (map L P) (map L R) false true
              (map L (fst (fst sol))) (map (map L) (snd (fst sol)))
              (map (map (map (map L))) (snd sol)).
+Let act_unrepaired :=
+  rabin_action_unrepaired 1 2 2 2 2 (L E) (L S) (map L P) (map L R) false true
+    (map L (fst (fst sol))) (map (map L) (snd (fst sol)))
+    (map (map (map (map L))) (snd sol)).
 Let win := L (last (fst (fst sol)) bfalse).
 Let ini := Gr1Gen.make_init 1 2 (2 * 4) btrue btrue true QEE 0
              (rabin_init_count 1 2 2 2 2 (map L P)) win.
 (* no allowed step for some next environment value, although the component's
    own action allows one *)
-Let blocked (c x y : nat) : bool :=
+Let blocked (act : bdd) (c x y : nat) : bool :=
   existsb (fun x' =>
     forallb (fun y' => negb (act (mkV c x y x' y'))) (seq 0 8) &&
     existsb (fun y' => L S (mkV c x y x' y')) (seq 0 8))
     (seq 0 2).
 
-Example C05_refuted_dead_end :
+(* the repaired construction: the state has a step for every next environment
+   value, and every such step breaks the environment's action *)
+Example C05_repaired_dead_end_has_step :
   (* admitted initial state (EnvInit = SysInit = TRUE, \E \E), winning,
      memory at its initial value ... *)
   match ini with Some i => i (mkV 0 1 6 0 0) | None => false end = true /\
   win (mkV 0 1 6 0 0) = true /\
   (* ... an environment dead end (in cpre(FALSE)) under strict causality ... *)
   FixpointGen.step 1 2 (2 * 4) false true 0 (L E) (L S) bfalse (mkV 0 1 6 0 0) = true /\
-  (* ... at which the synthesized action allows no step *)
-  blocked 0 1 6 = true.
+  (* ... at which the synthesized action now allows a step for every next
+     environment value (Mealy) ... *)
+  blocked act 0 1 6 = false /\
+  forallb (fun x' => existsb (fun y' => act (mkV 0 1 6 x' y')) (seq 0 8)) (seq 0 2) = true /\
+  (* ... none of which lets the environment keep its action *)
+  forallb (fun x' => forallb (fun y' => negb (act (mkV 0 1 6 x' y') && L E (mkV 0 1 6 x' y')))
+                       (seq 0 8)) (seq 0 2) = true.
 Proof. vm_compute. repeat split. Qed.
-End Refuted_dead_end.
+
+(* regression for finding F3 (repaired by fixes/F3.patch): the UNREPAIRED
+   construction (GenProofs/RabinUnrepaired.v) allows no step there *)
+Example C05_refuted_unrepaired_dead_end :
+  match ini with Some i => i (mkV 0 1 6 0 0) | None => false end = true /\
+  win (mkV 0 1 6 0 0) = true /\
+  FixpointGen.step 1 2 (2 * 4) false true 0 (L E) (L S) bfalse (mkV 0 1 6 0 0) = true /\
+  (* no allowed step for some next environment value, although the
+     component's own action allows one *)
+  blocked act_unrepaired 0 1 6 = true.
+Proof. vm_compute. repeat split. Qed.
+End Dead_end.
 
 
 Section Refuted_stale_hold.
@@ -397,7 +521,7 @@ Example C05_refuted_stale_hold :
 Proof. vm_compute. repeat split; repeat constructor. Qed.
 
 (* the blocked state above (base valuation (0,0,0), memory 2 = _hold 1,
-   _goal 0) is in class F12 of C05_blocks_only_in_known_classes: the held
+   _goal 0) is in class F12 of C05_blocks_only_when_hold_is_stale: the held
    persistence index 1 is below the number of persistence sets, and the state
    is outside y_{k,1} for its level k *)
 Example C05_refuted_stale_hold_is_class_F12 :
@@ -416,9 +540,13 @@ Print Assumptions C05_region_closed.
 Print Assumptions C05_reachable_states_winning.
 Print Assumptions C05_liveness.
 Print Assumptions C05_liveness_example.
+Print Assumptions C05_blocks_only_when_hold_is_stale.
 Print Assumptions C05_blocks_only_in_known_classes.
+Print Assumptions C05_dead_end_has_step.
+Print Assumptions C05_dead_end_steps_break_env.
 Print Assumptions C05_dead_end_in_extended_arena.
 Print Assumptions C05_blocks_only_example.
-Print Assumptions C05_refuted_dead_end.
+Print Assumptions C05_repaired_dead_end_has_step.
+Print Assumptions C05_refuted_unrepaired_dead_end.
 Print Assumptions C05_refuted_stale_hold.
 Print Assumptions C05_refuted_stale_hold_is_class_F12.
